@@ -73,7 +73,7 @@ impl<T> Drop for Sender<T> {
     fn drop(&mut self) {
         for command in self.pending_messages.drain(..) {
             #[cfg(fastrace_verif)]
-            crate::verif::push_point(self.tx.buffer() as *const _ as usize, "exit", self.tx.is_full());
+            crate::verif::push_point(self.tx.buffer() as *const _ as usize, "exit", &|| self.tx.is_full());
             drop(self.tx.push(command));
         }
         #[cfg(fastrace_verif)]
@@ -84,7 +84,7 @@ impl<T> Drop for Sender<T> {
 #[cfg(fastrace_verif)]
 impl<T> Sender<T> {
     fn verif_push_point(&self, via: &'static str) {
-        crate::verif::push_point(self.tx.buffer() as *const _ as usize, via, self.tx.is_full());
+        crate::verif::push_point(self.tx.buffer() as *const _ as usize, via, &|| self.tx.is_full());
     }
 
     pub(crate) fn verif_chan(&self) -> usize {
